@@ -20,6 +20,8 @@ from .terms import (EV, EVENT_FIELDS, EVSTORE, EVTOPO, KIND_CLASSES, const,
 
 STORE_OPS = {"add_key", "del_key", "get_state", "set_state", "iterate_state",
              "add_map", "del_map", "get_map", "iterate_map"}
+STORE_ARITY = {"add_key": 2, "del_key": 2, "get_state": 2, "set_state": 3, "iterate_state": 1,
+               "add_map": 3, "del_map": 3, "get_map": 3, "iterate_map": 2}
 TOPO_OPS = {"create_state", "create_mapper"}
 MUTATORS = {"append", "appendleft", "extend", "extendleft", "add", "clear", "pop", "popleft",
             "popitem", "remove", "discard", "insert", "update", "setdefault", "sort",
@@ -1467,6 +1469,35 @@ class Executor:
         if base[0] == "attr" and base[1] == EV and base[2] == "key" and attr not in ("index", "count"):
             # the key of an event is a tuple: it has no such method
             st.trace.append(Eff("badfield", node, mod, field="key.%s()" % attr, kind=st.kind))
+        if base == EVSTORE and attr == "get_state" and len(args) + len(kwargs) == 3 and (len(args) == 3 or (kwargs and kwargs[-1][0] == "default")):
+            # get_state(state, key, default): the one extension of the store API the model follows -- the stored value, or `default` when
+            # the slot reads NOTSET (MS-3 checks that MemoryStore.get, given a default parameter, returns exactly that on the NOTSET path)
+            vals = args + [v for _, v in kwargs]
+            state, key, dflt = vals[0], vals[1], vals[2]
+            uid = st.new_uid()
+            res = ("store", attr, state, key, (), uid)
+            eff = Eff("store", node, mod, op=attr, args=vals[:2], state=state, key=key, extra=(), result=res)
+            for s1, r1 in self._may_raise(st, eff, res):
+                if is_raise(r1):
+                    yield s1, r1
+                    continue
+                mk = self.program.module("rxsci/state/markers.py")
+                test = ("cmp", "Is", res, self._global_term(mk, "STATE_NOTSET"))
+                s2 = s1.fork()
+                s1.memo[test] = True          # the handler's own `is STATE_NOTSET` test on this value is already decided
+                s1.trace.append(Eff("decision", node, mod, test=test, outcome=True))
+                yield s1, dflt
+                s2.memo[test] = False
+                s2.trace.append(Eff("decision", node, mod, test=test, outcome=False))
+                yield s2, res
+            return
+        if base == EVSTORE and attr in STORE_OPS and len(args) + len(kwargs) > STORE_ARITY[attr]:
+            # an argument the store model does not know (the store API has grown): not followed, recorded as unresolved
+            uid = st.new_uid()
+            res = ("mcall", base, attr, tuple(allargs), uid)
+            eff = Eff("call", node, mod, func=("attr", base, attr), args=allargs, result=res, method=attr, base=base, unresolved=True)
+            yield from self._may_raise(st, eff, res)
+            return
         if base == EVSTORE and attr in STORE_OPS:
             uid = st.new_uid()
             vals = args + [v for _, v in kwargs]
@@ -1476,6 +1507,14 @@ class Executor:
             eff = Eff("store", node, mod, op=attr, args=vals, state=state, key=key, extra=tuple(vals[2:]), result=res)
             if attr in ("add_key", "del_key", "set_state", "add_map", "del_map"):
                 st.epoch += 1
+            yield from self._may_raise(st, eff, res)
+            return
+        if base == EVSTORE and attr not in STORE_OPS and not attr.startswith("__"):
+            # an operation of the store the model does not know (a method added to the store API): what the handler reads or writes through it
+            # cannot be told; the call is recorded as unresolved so that no finding on this path is taken for a verdict
+            uid = st.new_uid()
+            res = ("mcall", base, attr, tuple(allargs), uid)
+            eff = Eff("call", node, mod, func=("attr", base, attr), args=allargs, result=res, method=attr, base=base, unresolved=True)
             yield from self._may_raise(st, eff, res)
             return
         if base == EVTOPO and attr in TOPO_OPS:
